@@ -449,4 +449,126 @@ move=> Hx; elim: n z => [|[|n] IH] z.
   by rewrite exprS; exact: rn_mul_spec_cond Hx (IH _ Ey) Hz.
 Qed.
 
+(* ---- multiplication by a rational, directly on the representation *)
+Lemma horner_pr_nth (x : seq Z) (w : R) : (pr x).[w] = \sum_(k < size x) zr (nth Z0 x k) * w ^+ k.
+Proof.
+elim: x => [|c x IH]; first by rewrite pr_nil horner0 big_ord0.
+rewrite pr_cons hornerD hornerC hornerMX IH /= big_ord_recl /= expr0 mulr1; congr (_ + _).
+by rewrite mulr_suml; apply: eq_bigr => k _; rewrite /bump /= add1n exprSr mulrA.
+Qed.
+
+Lemma q_sgn_spec (q : Z * Z) : qpos q -> zr (q_sgn q) = sgr (qr q).
+Proof.
+move=> Hq; rewrite /q_sgn -zr_sgn /RefAlgSpec.qr sgrM sgrV.
+by rewrite [sgr (zr q.2)]gtr0_sg ?zr_gt0 // mulr1.
+Qed.
+
+Definition scaled_poly (pn : seq Z) (a b : Z) : seq Z :=
+  List.map (fun kc : nat * Z => Z.mul (Z.mul kc.2 (Z.pow b (Z.of_nat kc.1)))
+                                 (Z.pow a (Z.of_nat (Nat.pred (length pn) - kc.1))))
+           (List.combine (List.seq 0 (length pn)) pn).
+
+Lemma zr_pow (x : Z) (k : nat) : zr (Z.pow x (Z.of_nat k)) = zr x ^+ k.
+Proof. by rewrite GcdSpec.Zpow_exp (rmorphX (zr_rmorphism R)). Qed.
+
+Lemma horner_scaled (pn : seq Z) (a b : Z) (w : R) : zr a != 0 ->
+  (pr (scaled_poly pn a b)).[w] = zr a ^+ (size pn).-1 * (pr pn).[w * zr b / zr a].
+Proof.
+move=> a0; rewrite !horner_pr_nth /scaled_poly.
+have Es : size (List.map (fun kc : nat * Z => Z.mul (Z.mul kc.2 (Z.pow b (Z.of_nat kc.1)))
+              (Z.pow a (Z.of_nat (Nat.pred (length pn) - kc.1))))
+              (List.combine (List.seq 0 (length pn)) pn)) = size pn.
+  by rewrite RefAlgDet.combine_zip size_map size_zip SylvesterProofs.List_seq_iota size_iota minnn.
+rewrite Es mulr_sumr; apply: eq_bigr => k _.
+rewrite RefAlgDet.combine_zip SylvesterProofs.List_seq_iota.
+rewrite (nth_map (0%N, Z0)); last by rewrite size_zip size_iota minnn.
+rewrite nth_zip ?size_iota // nth_iota // add0n /= !zrM !zr_pow.
+have Hk : (k <= (size pn).-1)%N by rewrite -ltnS (leq_trans (ltn_ord k)) // leqSpred.
+have -> : zr a ^+ (size pn).-1 = zr a ^+ ((size pn).-1 - k) * zr a ^+ k by rewrite -exprD subnK.
+rewrite ?minusE; change (length pn) with (size pn).
+rewrite !exprMn exprVn.
+have ak : zr a ^+ k != 0 by rewrite expf_neq0.
+move: (zr (nth Z0 pn k)) (zr a ^+ (_ - _)) (w ^+ k) (zr b ^+ k) (zr a ^+ k) ak => C A1 W B AK ak.
+by field.
+Qed.
+
+Theorem rn_mul_q_spec_cond (x : rnum) (q : Z * Z) (v : R) :
+  rn_denotes x v -> qpos q -> rn_denotes (rn_mul_q x q) (v * qr q).
+Proof.
+case: x => [r|p lo hi] Hx Hq.
+  by case: Hx => Hr ->; have [H1 H2] := qr_mul R Hr Hq.
+rewrite /rn_mul_q -(zr_eq0 R) (q_sgn_spec Hq) sgr_eq0.
+case: (altP (qr q =P 0)) => [->|k0]; first by rewrite mulr0; exact: denotes_zero.
+have [[Hlo Hhi] /andP[lov vhi] rv uniq sgn] := Hx.
+have a0 : zr q.1 != 0.
+  by apply: contraNneq k0 => E; rewrite /RefAlgSpec.qr E mul0r.
+have b0 : zr q.2 != 0 by rewrite gt_eqF // zr_gt0.
+set pn := pnorm p.
+have Epn : pr pn = pr p by rewrite /RefAlgSpec.pr Poly_pnorm.
+rewrite -/(scaled_poly pn q.1 q.2); set p' := scaled_poly pn q.1 q.2.
+have Hr (w : R) : root (pr p') w = root (pr p) (w / qr q).
+  rewrite !rootE horner_scaled // mulf_eq0 expf_eq0 (negbTE a0) andbF /= Epn.
+  by rewrite /RefAlgSpec.qr invf_div mulrA.
+have Pl : ~~ root (pr p) (qr lo).
+  by rewrite rootE; apply/eqP => H0; move: sgn; rewrite H0 sgr0 mul0r => /eqP; rewrite eq_sym oppr_eq0 oner_eq0.
+have Ph : ~~ root (pr p) (qr hi).
+  by rewrite rootE; apply/eqP => H0; move: sgn; rewrite H0 sgr0 mulr0 => /eqP; rewrite eq_sym oppr_eq0 oner_eq0.
+have p'0 : Poly p' != 0.
+  rewrite -(pr_eq0 R); apply/eqP => E; have := Hr (qr lo * qr q).
+  by rewrite E root0 mulfK // (negbTE Pl).
+have [r0 Hsq Hroot] := psqfree_correct p'0.
+have [Hl El] := qr_mul R Hlo Hq; have [Hh Eh] := qr_mul R Hhi Hq.
+have -> : Z.ltb Z0 (q_sgn q) = (0 < qr q).
+  by rewrite -sgr_gt0 -(q_sgn_spec Hq) -(zr0 R) (zr_lt R).
+case: (ltrgt0P (qr q)) k0 => // kpos _.
+- apply: denotes_of_sqfree => //.
+  + by rewrite El Eh !ltr_pmul2r // lov vhi.
+  + by rewrite Hroot Hr mulfK // gt_eqF.
+  + move=> w; rewrite Hroot Hr El Eh => rw /andP[h1 h2].
+    have Hin : qr lo < w / qr q < qr hi by rewrite ltr_pdivl_mulr // ltr_pdivr_mulr // h1 h2.
+    by rewrite -(uniq _ rw Hin) divfK // gt_eqF.
+  + by rewrite -rootE Hroot Hr El mulfK // gt_eqF.
+  + by rewrite -rootE Hroot Hr Eh mulfK // gt_eqF.
+- apply: denotes_of_sqfree => //.
+  + by rewrite El Eh !ltr_nmul2r // lov vhi.
+  + by rewrite Hroot Hr mulfK // lt_eqF.
+  + move=> w; rewrite Hroot Hr El Eh => rw /andP[h1 h2].
+    have Hin : qr lo < w / qr q < qr hi by rewrite ltr_ndivl_mulr // ltr_ndivr_mulr // h1 h2.
+    by rewrite -(uniq _ rw Hin) divfK // lt_eqF.
+  + by rewrite -rootE Hroot Hr Eh mulfK // lt_eqF.
+  + by rewrite -rootE Hroot Hr El mulfK // lt_eqF.
+Qed.
+
+(* ---- exact evaluation of a reference multivariate polynomial at real algebraic points.
+   mono_evalR / mp_evalR: the value in R, by the same formulas as MPoly.mono_eval / MPoly.mp_eval over Z *)
+Definition mono_evalR (rho : MPoly.var -> R) (m : MPoly.mono) : R :=
+  foldr (fun ve acc => rho ve.1 ^+ (N.to_nat ve.2) * acc) 1 m.
+Definition mp_evalR (rho : MPoly.var -> R) (p : MPoly.mpoly) : R :=
+  foldr (fun t acc => zr t.2 * mono_evalR rho t.1 + acc) 0 p.
+
+Theorem mono_eval_rn_spec_cond (fuel : nat) (rho : MPoly.var -> rnum) (rhoR : MPoly.var -> R) (m : MPoly.mono) (z : rnum) :
+  (forall v, rn_denotes (rho v) (rhoR v)) ->
+  mono_eval_rn fuel rho m = Some z -> rn_denotes z (mono_evalR rhoR m).
+Proof.
+move=> Hrho; rewrite /mono_eval_rn; elim: m z => [|[v e] m IH] z /=.
+  by case=> <-; exact: denotes_one.
+case Ea: (List.fold_right _ _ m) => [a|] //=.
+case Eb: (rn_pow fuel (rho v) (N.to_nat e)) => [b|] //= Hz.
+exact: rn_mul_spec_cond (rn_pow_spec_cond (Hrho v) Eb) (IH _ Ea) Hz.
+Qed.
+
+Theorem mp_eval_rn_spec_cond (fuel : nat) (rho : MPoly.var -> rnum) (rhoR : MPoly.var -> R) (p : MPoly.mpoly) (z : rnum) :
+  (forall v, rn_denotes (rho v) (rhoR v)) ->
+  mp_eval_rn fuel rho p = Some z -> rn_denotes z (mp_evalR rhoR p).
+Proof.
+move=> Hrho; rewrite /mp_eval_rn; elim: p z => [|[m c] p IH] z /=.
+  by case=> <-; exact: denotes_zero.
+case Ea: (List.fold_right _ _ p) => [a|] //=.
+case Em: (mono_eval_rn fuel rho m) => [mv|] //= Hz.
+have Hmv := mono_eval_rn_spec_cond Hrho Em.
+have Hq : qpos (c, Zpos xH) by [].
+have := rn_mul_q_spec_cond Hmv Hq; rewrite /RefAlgSpec.qr /= zr1 divr1 mulrC => Hc.
+exact: rn_add_spec_cond Hc (IH _ Ea) Hz.
+Qed.
+
 End Ops.
